@@ -155,6 +155,33 @@ func runC17(c *Ctx) {
 		})
 	}
 
+	// … and so is handing the input out as an element of the result (Chunks: []Slice{vs}, out = append(out, vs))
+	for _, fname := range []string{"Chunks", "Batches"} {
+		fn := P.Func("slice", "", fname)
+		if fn == nil {
+			continue
+		}
+		n := 0
+		allInstrs(fn, func(in ssa.Instruction) {
+			st, ok := in.(*ssa.Store)
+			if !ok || st.Val != ssa.Value(fn.Params[0]) {
+				return
+			}
+			if _, isIA := st.Addr.(*ssa.IndexAddr); !isIA {
+				return
+			}
+			n++
+			db := factsDBAt(st.Block())
+			ln := "len(" + sym(fn.Params[0]) + ")"
+			empty := db.has(ln, token.EQL, "0") || db.has(ln, token.LEQ, "0") || db.has(ln, token.LSS, "1")
+			key := fmt.Sprintf("slice.%s:input handed out as a chunk", fname)
+			if n > 1 {
+				key = fmt.Sprintf("%s #%d", key, n)
+			}
+			c.judge(empty, "R-CLIP", key, st.Pos(), "only for an empty input (nothing to protect)", "the input slice itself becomes a chunk of the result, with its full capacity, on a path where it may be non-empty: appending to that chunk overwrites the memory behind the input, unlike every other chunk, which is clipped")
+		})
+	}
+
 	// ---- R-DIV-NONZERO (package slice)
 	var fns []*ssa.Function
 	for _, fn := range P.PkgFuncs("slice") {
